@@ -20,8 +20,8 @@ def plan(tier, seed):
       'rule': ('E2: all histories of update/load calls of length <= depth over '
                'the event alphabet, each replayed on a fresh Quantizer in '
                'lock-step with the reference model R-recipe; at every state: '
-               'exported recipe == reference list, 25-entry resolution table '
-               '(5 operators x 5 scopes) == reference, queries are repeatable '
+               'exported recipe == reference list, 31-entry observation table '
+               '(5 operators x 6 scopes + need_calibration) == reference, queries are repeatable '
                'and side-effect free, refused calls leave the state unchanged, '
                'states reached by different histories resolve identically. '
                'non-trivial = history whose last event changed the state; '
